@@ -348,10 +348,15 @@ impl Property for C18 {
         case.cfg.insert("policy_sched".into(), json!(policy));
         case.cfg.insert("k".into(), json!(1 + cfg_rng.below(3)));
         case.cfg.insert("sched_rng".into(), json!(cfg_rng.next() >> 1));
+        if cfg_rng.chance(1, 2) {
+            // size-dependent engine paths forced or forbidden on small databases
+            draw_knobs(&mut case, &mut cfg_rng);
+        }
         case
     }
     fn check(&self, case: &Case) -> CaseResult {
         let mut res = CaseResult::new();
+        apply_knobs(case);
         let policy = case.cfg_str("policy_sched").unwrap_or("all").to_string();
         let mut e = Engine::new(Mode::Plain, 1);
         let mut twin = if policy == "all" { Some(Engine::new(Mode::Plain, 1)) } else { None };
